@@ -38,6 +38,7 @@ type (
 		Vars   []Binder
 		Body   Expr
 		Pats   []Expr
+		PatGroups [][]Expr
 	}
 	EOld  struct{ X Expr }
 	ECast struct { // x.(T) — "has dynamic type T" when used as bool is written isType(x, T)
@@ -323,6 +324,19 @@ func (p *parser) expr() Expr {
 			}
 		}
 		p.expect("::")
+		for p.isOp("{") {
+			// trigger: { e1, e2 } (a multi-pattern); several groups allowed
+			p.p++
+			var group []Expr
+			for !p.isOp("}") {
+				group = append(group, p.expr())
+				if !p.accept(",") {
+					break
+				}
+			}
+			p.expect("}")
+			q.PatGroups = append(q.PatGroups, group)
+		}
 		q.Body = p.expr()
 		return q
 	}
